@@ -286,7 +286,7 @@ def exception_scenarios():
 # closure is called from the catch block, from the finally block and after the try statement
 def handler_intact_scenarios():
     out = []
-    sites = ["body", "callee", "callee2", "callee-builtin", "body-builtin"]
+    sites = ["body", "callee", "callee2", "callee-builtin", "body-builtin", "mid-captures", "mid-captures-builtin"]
     shapes = ["catch", "catch-finally", "finally-outer-catch"]
     for site, shape, kind, npre, nworker in itertools.product(sites, shapes, ("read", "write"), (0, 1, 2), (0, 2)):
         if nworker and site.startswith("body") and npre == 1:
@@ -311,11 +311,18 @@ def handler_intact_scenarios():
                 b.throw(lit("failed"))
 
         b.fn("worker", [])
-        capture()
-        fail(site == "callee-builtin")
+        if not site.startswith("mid-captures"):
+            capture()
+        else:
+            b.var("wlocal", lit("w0"))
+        fail(site in ("callee-builtin", "mid-captures-builtin"))
         b.end()
         b.fn("middle", [])
         b.var("m", lit("m0"))
+        if site.startswith("mid-captures"):
+            # the capturing function is an INTERMEDIATE frame: it has let the closure escape and is itself unwound by an exception
+            # raised in its callee
+            capture()
         b.expr(call(b.v("worker")))
         b.print(b.v("m"))
         b.end()
@@ -328,7 +335,7 @@ def handler_intact_scenarios():
         if site in ("body", "body-builtin"):
             capture()
             fail(site == "body-builtin")
-        elif site == "callee2":
+        elif site in ("callee2", "mid-captures", "mid-captures-builtin"):
             b.expr(call(b.v("middle")))
         else:
             b.expr(call(b.v("worker")))
@@ -1438,7 +1445,8 @@ def fiber_lifetime_scenarios():
         b.var("w", vec(lit("w"), b.v("arg")))
         b.var("other", tup(lit("other"), vec(lit(0))))
         if esc:
-            b.expr(b.assign("keepc", b.lam([], lambda: b.v("w"))))
+            # keepc builds, each time it is called (by whoever calls it, on whatever fiber), a nested closure over the same variable
+            b.expr(b.assign("keepc", b.lam([], lambda: b.lam([], lambda: b.v("w")))))
         if ending in ("abandoned", "resumed"):
             b.expr(inv(b.v("got"), "push", inv(b.v("Fiber"), "yield", tup(lit("yielded"), b.v("w")))))
         if ending == "fails":
@@ -1481,7 +1489,11 @@ def fiber_lifetime_scenarios():
         b.print(b.v("got"))
         b.print(tup(bin_("==", b.v("keepb"), lit(None)), bin_("==", b.v("keepa"), lit(None)), bin_("==", b.v("keepc"), lit(None))))
         if esc:
-            b.print(call(b.v("keepc")))
+            b.var("inner1", call(b.v("keepc")))
+            b.var("junk", vec(vec(lit(1)), tup(lit(2), lit(3)), vec(lit(4))))
+            b.var("inner2", inv(inv(b.v("Fiber"), "new", b.v("keepc")), "call"))
+            b.print(tup(call(b.v("inner1")), call(b.v("inner2")), call(call(b.v("keepc")))))
+            b.expr(b.assign("junk", lit(None)))
         if keepb:
             b.print(inv(b.v("keepb"), "has_finished"))
         b.expr(b.assign("got", lit(None)))
@@ -1702,6 +1714,116 @@ def module_scenarios(rng, count):
 
 # ---------------------------------------------------------------------------------------------------
 # C15: sequences of snippets fed to one interpreter
+# ---------------------------------------------------------------------------------------------------
+# C14: modules across several runs on one interpreter, and imports made while a function of the imported module is running
+def module_rerun_scenarios():
+    """(a) one interpreter, several runs: a module imported by an early run is imported again after runs that failed in every way
+    (uncaught throw, built-in error, compile error, error inside the module's own function, failing import, error inside a fiber):
+    its body must not run again, the importer must get the same module object with its state.  (b) re-entrant imports: a function
+    of module `core` imports `plugin` lazily; plugin's body (or a function of it) imports `core` back while core's function is on
+    the call stack - core is loaded, so this is no cycle."""
+    out = []
+    failures = ["none", "throw", "builtin", "compile", "in-module-fn", "failing-import", "in-fiber", "missing-import", "caught-cycle"]
+
+    def lib_mods():
+        lb = Builder(first_decl=5000)
+        lb.print(lit("lib body")); lb.var("count", lit(0))
+        lb.fn("bump", []); lb.expr(lb.assign("count", bin_("+", lb.v("count"), lit(1)))); lb.ret(lb.v("count")); lb.end()
+        lb.fn("fails", []); lb.throw(tup(lit("lib.fails"), lb.v("count"))); lb.end()
+        bb = Builder(first_decl=6000); bb.print(lit("broken body")); bb.throw(lit("broken while loading"))
+        sb = Builder(first_decl=7000); sb.print(lit("selfish body")); sb.import_("selfish", "me"); sb.print(lit("unreached"))
+        return [{"path": "lib", "prog": lb.toks}, {"path": "broken", "prog": bb.toks}, {"path": "selfish", "prog": sb.toks}]
+
+    for f1, f2, where in itertools.product(failures, failures, ("top", "fn", "try")):
+        if f1 == "none" and f2 != "none":
+            continue
+        snips = []
+        b = Builder(first_decl=100)
+        b.import_("lib", "lib"); b.print(inv(b.v("lib"), "bump"))
+        snips.append({"prog": b.toks})
+        for k, f in enumerate((f1, f2)):
+            b = Builder(first_decl=200 + 100 * k)
+            if f == "none":
+                b.print(lit("quiet run"))
+            elif f == "throw":
+                b.print(lit("before")); b.throw(lit("uncaught %d" % k))
+            elif f == "builtin":
+                b.print(idx(vec(lit(1)), lit(9)))
+            elif f == "compile":
+                snips.append({"bad": True, "src": "var x = (1;\n", "messages": ["[module \"main\", line 1] Error at ';': Expected ')' after expression."], "prog": []})
+                continue
+            elif f == "in-module-fn":
+                b.expr(inv(b.v("lib"), "fails"))
+            elif f == "failing-import":
+                b.import_("broken", "broken")
+            elif f == "in-fiber":
+                b.expr(inv(inv(b.v("Fiber"), "new", get(b.v("lib"), "fails")), "call"))
+            elif f == "missing-import":
+                b.import_("nowhere", "nowhere")
+            else:
+                b.try_(); b.import_("selfish", "selfish"); b.catch("e"); b.print(tup(lit("caught"), call(b.v("type"), b.v("e")))); b.end()
+            snips.append({"prog": b.toks})
+        b = Builder(first_decl=900)
+        if where == "fn":
+            b.fn("again", [])
+        if where == "try":
+            b.try_()
+        b.import_("lib", "lib2")
+        b.print(tup(bin_("==", b.v("lib2"), b.v("lib")), inv(b.v("lib2"), "bump"), get(b.v("lib"), "count")))
+        if where == "try":
+            b.catch("e"); b.print(tup(lit("import failed"), call(b.v("type"), b.v("e")))); b.end()
+        if where == "fn":
+            b.end(); b.expr(call(b.v("again"))); b.expr(call(b.v("again")))
+        snips.append({"prog": b.toks})
+        out.append(("modrerun:%s:%s:%s" % (f1, f2, where), {"snips": snips, "mods": lib_mods()}))
+
+    # (b) re-entrant imports
+    for back, via, loaded, guard in itertools.product(("plugin-body", "plugin-fn", "both"), ("call", "fiber", "method"), ("loaded", "loading"), (False, True)):
+        cb = Builder(first_decl=5000)
+        cb.print(lit("core body")); cb.var("count", lit(0))
+        cb.fn("bump", []); cb.expr(cb.assign("count", bin_("+", cb.v("count"), lit(1)))); cb.ret(cb.v("count")); cb.end()
+        cb.fn("load_plugin", [])
+        cb.var("mine", vec(lit("core local")))
+        cb.import_("plugin", "p")
+        cb.ret(tup(inv(cb.v("p"), "hello"), cb.v("mine"), cb.v("count")))
+        cb.end()
+        if loaded == "loading":
+            # core calls its own lazy loader while its body is still running: the back-import now names a module that is still loading
+            if guard:
+                cb.try_(); cb.print(call(cb.v("load_plugin"))); cb.catch("e"); cb.print(tup(lit("core caught"), call(cb.v("type"), cb.v("e")), get(cb.v("e"), "context"))); cb.end()
+            else:
+                cb.print(call(cb.v("load_plugin")))
+        cb.print(lit("end of core body"))
+        pb = Builder(first_decl=6000)
+        pb.print(lit("plugin body"))
+        if back in ("plugin-body", "both"):
+            pb.import_("core", "c"); pb.print(tup(lit("plugin sees"), get(pb.v("c"), "count")))
+        pb.fn("hello", [])
+        if back in ("plugin-fn", "both"):
+            pb.import_("core", "c2"); pb.ret(tup(lit("hello"), inv(pb.v("c2"), "bump")))
+        else:
+            pb.ret(tup(lit("hello"), inv(pb.v("c"), "bump")))
+        pb.end()
+        b = Builder(first_decl=100)
+        if guard:
+            b.try_()
+        b.import_("core", "core")
+        if via == "call":
+            b.print(call(get(b.v("core"), "load_plugin"))); b.print(inv(b.v("core"), "load_plugin"))
+        elif via == "fiber":
+            b.print(inv(inv(b.v("Fiber"), "new", get(b.v("core"), "load_plugin")), "call")); b.print(inv(b.v("core"), "load_plugin"))
+        else:
+            b.class_("Host", ctor="new"); b.method("go", ["m"]); b.ret(inv(b.v("m"), "load_plugin")); b.end(); b.end()
+            b.print(inv(inv(b.v("Host"), "new"), "go", b.v("core"))); b.print(inv(b.v("core"), "load_plugin"))
+        b.print(inv(b.v("core"), "bump"))
+        if guard:
+            b.catch("e"); b.print(tup(lit("main caught"), call(b.v("type"), b.v("e")), get(b.v("e"), "context"))); b.end()
+        b.print(lit("end of main"))
+        out.append(("modreentry:%s:%s:%s:%d" % (back, via, loaded, int(guard)),
+                    {"snips": [{"prog": b.toks}], "mods": [{"path": "core", "prog": cb.toks}, {"path": "plugin", "prog": pb.toks}]}))
+    return out
+
+
 def snippet_scenarios(rng, count):
     out = []
     catalogue = ["def-var", "def-fn", "def-class", "use-var", "use-fn", "use-class", "compile-error", "throw-top", "throw-nested", "throw-in-fiber",
@@ -1709,7 +1831,7 @@ def snippet_scenarios(rng, count):
                  "uncaught-in-class-def", "closure-persist", "mutate-var", "throw-through-two-finally", "error-in-method",
                  "inspect-failed-fiber", "fail-in-module-fn", "use-after", "closure-escapes-failure", "closure-escapes-failure", "use-escaped-closure",
                  "use-escaped-closure", "closure-escapes-fiber-failure", "import-uncompilable", "import-uncompilable", "import-uncompilable-uncaught",
-                 "fiber-parked-in-finally", "try-finally-ok"]
+                 "fiber-parked-in-finally", "try-finally-ok", "closure-over-root-local-child-fails", "assign-undeclared"]
     triples = [(a, c) for a in catalogue for c in catalogue if a != "reset" and c != "reset"]
     for k in range(count):
         n = rng.randint(2, 6)
@@ -1720,7 +1842,7 @@ def snippet_scenarios(rng, count):
         elif k % 5 == 1:
             plan = ["throw-in-fiber"] + plan + ["inspect-failed-fiber"]
         elif k % 5 == 3:
-            plan = [rng.choice(["closure-escapes-failure", "closure-escapes-fiber-failure"])] + plan + ["use-escaped-closure"]
+            plan = [rng.choice(["closure-escapes-failure", "closure-escapes-fiber-failure", "closure-over-root-local-child-fails"])] + plan + ["use-escaped-closure"]
         n = len(plan)
         snips = []
         mods = [{"path": "lib", "prog": None}, {"path": "broken", "prog": None},
@@ -1783,7 +1905,7 @@ def snippet_scenarios(rng, count):
             elif kind == "fail-in-module-fn":
                 b.import_("lib", "lib"); b.print(inv(b.v("lib"), "fails"))
             elif kind == "use-after":
-                for nm in ("shared", "helper", "lib", "Kept", "Vec", "StopIter"):
+                for nm in ("shared", "helper", "lib", "Kept", "Vec", "StopIter", "never_declared"):
                     b.try_(); b.print(b.v(nm)); b.catch("e"); b.print(tup(lit("undefined"), lit(nm))); b.end()
             elif kind in ("closure-escapes-failure", "closure-escapes-fiber-failure"):
                 # closures over live locals are stored in globals, then the run dies with those locals still on the stack
@@ -1798,6 +1920,19 @@ def snippet_scenarios(rng, count):
                     b.expr(call(b.v("leaky")))
                 else:
                     b.expr(inv(inv(b.v("Fiber"), "new", b.v("leaky")), "call"))
+            elif kind == "closure-over-root-local-child-fails":
+                # the captured variables live on the stack of the run's ROOT fiber; the run dies inside a child fiber, so the root
+                # fiber is not the one whose stack is cleared - it is simply dropped when the next run starts
+                b.var("esc_get", lit(None)); b.var("esc_set", lit(None))
+                b.block()
+                b.var("pad", lit("pad")); b.var("x", tup(lit(7), vec(lit(8), lit(si))))
+                b.expr(b.assign("esc_get", b.lam([], lambda: b.v("x"))))
+                b.expr(b.assign("esc_set", b.lam(["nv"], lambda: b.assign("x", b.v("nv")))))
+                b.expr(inv(inv(b.v("Fiber"), "new", b.lam([], lambda: call(b.v("no_such_function")))), "call"))
+                b.end()
+            elif kind == "assign-undeclared":
+                # assignment to a global that was never declared: a NameError, and the name must stay undefined afterwards
+                b.expr(b.assign("never_declared", lit("leaked %d" % si)))
             elif kind == "use-escaped-closure":
                 b.var("filler", vec(vec(lit(1)), tup(lit(2), lit(3)), vec(lit(4))))
                 b.try_(); b.print(call(b.v("esc_get"))); b.expr(call(b.v("esc_set"), tup(lit("new"), vec(lit(si))))); b.print(call(b.v("esc_get")))
